@@ -38,6 +38,7 @@ CHECKS = {
             dict(run="TestRoundRobin", checks_quick=3000, checks_thorough=60000, shards_thorough=2),
             dict(run="TestLeastBytes", checks_quick=3000, checks_thorough=60000, shards_thorough=2),
             dict(run="TestWriterOffers", checks_quick=40, checks_thorough=600),
+            dict(run="TestWriterDefaultBalancer", checks_quick=60, checks_thorough=1500),
         ],
         exhaustive_thorough=False,
     ),
